@@ -30,6 +30,10 @@ claimed = {
          "Decides the write-ahead ordering: no broadcast or commit is reachable without the per-action WAL flush that covers its cause; every peer-visible action type requires a flush; only the driver broadcasts and drives the WAL; every action list with a visible effect starts with the WriteWAL of its cause and messages are recorded in the vote counter unconditionally; commit is OnCommit(success) → DeleteWALEntries → Flush; replay covers every WAL entry type; replay must not re-derive values from non-logged non-deterministic sources (today it does: known finding F4). Equality of the recovered state and what survives a crash are not decided.",
          "trusted: go/types, go/ssa, VTA extended with generic origins; driver functions are analysed on their generic bodies",
          "DESIGN.md §5 C13"),
+ "C14": ("dominance and must-hold DNF conditions on the SSA/CFG of consensus/walstore (sync-then-acknowledge, abort-on-failure, commit-then-index, watermark write order, prune filters), field/map-store ownership, value identity of the truncation offset",
+         "Decides the durability orderings the recovery argument rests on: the synced offset and the committed acknowledgement are produced only after the fsync wait completed without error; failed appends truncate back to the last synced offset; the live index changes only on the committed branch and in replay; the prune watermark is written write→sync→close→rename→syncDir and is durable before obsolete files are removed; live path, replay path and the store API apply the same watermark filter, which only grows; only the newest log tolerates a torn tail and the tail is cut at the offset reported with the read error; no new writer while a repair is pending. Crash images themselves (torn bytes, Pebble's record format, fsync semantics) are not decided.",
+         "trusted: go/types, go/ssa, the condition canonicaliser; pebble's wal/record packages are outside the analysed code",
+         "DESIGN.md §5 C14"),
 }
 pending = {}  # id -> reason (properties not claimed)
 props = [json.loads(l) for l in open(os.path.join(V, "properties.jsonl"))]
